@@ -38,7 +38,9 @@ Exec1(m)       == [t |-> "Exec", grantee |-> m.owner, msgs |-> <<m>>]
 LastOf(k, id) == IF ChExists(st, k, id) THEN ChOf(st, k, id).last ELSE 0
 \* heights are uint64 on the wire: nothing above Big (the code of 2^64 - 1) can be submitted
 CapH(h) == IF h > Big THEN Big ELSE h
+\* ... the next height, one beyond it (leaving a gap), the last one again, the height below the last one (in a gap or pruned), 2^64 - 1
 Heights(id) == {CapH(LastOf("wrk", id) + 1), CapH(LastOf("wrk", id) + 2), LastOf("wrk", id), Big}
+               \cup (IF LastOf("wrk", id) > 1 /\ LastOf("wrk", id) < Big THEN {LastOf("wrk", id) - 1} ELSE {})
 
 TxAlphabet ==
      { FeeTx(<<[t |-> "WReg", owner |-> a, moniker |-> m, name |-> "n", genesis |-> "g", type |-> "t"]>>) : a \in {"A1", "A2"}, m \in {"m", ""} }
